@@ -2,7 +2,7 @@
 # tools/verify_mutant.sh <Cxx> [suffix]   — confirms a sub-agent's mutant in its scratch worktree:
 #   demo passes without the change, whole suite passes with it, demo fails with it.
 pid="$1"; suf="${2:-}"
-d=/tmp/mut/$pid; wt=$d/wt; out=$d/out
+d=${MUTROOT:-/tmp/mut}/$pid; wt=$d/wt; out=$d/out
 export CARGO_NET_OFFLINE=true CARGO_TARGET_DIR=$d/target
 cd $wt || exit 2
 git checkout -q -- . ; git clean -fdq
